@@ -100,7 +100,7 @@ let render_res ((r, w) : res0 * dworld) = render r.r_err r.r_pub (List.length r.
 
 let member_of s = match String.split_on_char ':' s with
   | ["i"] -> MInvalid
-  | ["v"; n; d] -> MValid (pos_of_hex_exn n, bytes_of_hex d)
+  | ["v"; raw; n; d] -> MValid (pos_of_hex_exn raw, pos_of_hex_exn n, bytes_of_hex d)
   | _ -> failwith ("bad member " ^ s)
 let imp_of s = match String.split_on_char ':' s with
   | [o; d; v] -> ((pos_of_hex_exn o, bytes_of_hex d), v = "1")
@@ -121,6 +121,11 @@ let dispatch fn args = match fn, args with
   | "collection", [f1; f2; kp; bound; init; f; ms] ->
     render_res (run_collection (fault f1) (fault f2) (natarg kp) (pos_of_hex_exn bound) (tree_of_string init) (dir_of f)
                   (List.map member_of (split ',' ms)))
+  | "decide", [ms] ->
+    (match run_decide (List.map member_of (split ',' ms)) with
+     | Accept -> "accept"
+     | RejInvalid k -> "invalid:" ^ string_of_int (int_of_nat k + 1)
+     | RejDup k -> "dup:" ^ string_of_int (int_of_nat k + 1))
   | "fonts", [f1; f2; init; f; sc; junk; sok; names; rok] ->
     render_res (run_fonts (fault f1) (fault f2) (tree_of_string init) (dir_of f) (content_of_list (content_list sc))
                   (junk_of junk) (bool_of_str sok) (names_of names) (bool_of_str rok))
